@@ -499,7 +499,7 @@ impl Ms {
                     w.gmodel.entry(a.clone()).or_default().set(h0, Some(*x));
                 }
                 w.gchange_heights.insert(h0);
-                let gtotal: u64 = uniq.iter().map(|u| u.1).sum();
+                let gtotal: u64 = uniq.iter().fold(0u64, |a, u| a.saturating_add(u.1));
                 let rule = match rule {
                     Rule::Count(x) if x > gtotal || gtotal == 0 => {
                         if gtotal == 0 {
